@@ -297,7 +297,7 @@ func c08(p *P) {
 			switch {
 			case strings.HasSuffix(whole, ".ScaledTotal"):
 				table = strings.TrimSuffix(whole, ".ScaledTotal")
-			case strings.HasSuffix(whole, "PowerEntries.Scaled("+strings.TrimSuffix(strings.TrimPrefix(whole[strings.LastIndex(whole, "Scaled(")+0:], "Scaled("), ")#1")+")#1"):
+			case strings.Contains(whole, "Scaled(") && strings.HasSuffix(whole, "PowerEntries.Scaled("+strings.TrimSuffix(strings.TrimPrefix(whole[strings.LastIndex(whole, "Scaled(")+0:], "Scaled("), ")#1")+")#1"):
 				table = "scaled:" + whole[:len(whole)-2]
 			default:
 				r.Fail("C08.R2", c, where, "whole operand "+whole+" is not the scaled total of a power table")
